@@ -10,7 +10,7 @@ RULE = ("generated programs (laid out with comments) x insertions D of C-preproc
         "str(tree). Both comment settings. non-trivial = >= 4 directives of >= 3 kinds"
         ' Correspondence: Fp.Reader item stream == real reader on every second source with directives, process_directives off and on.')
 ASSUMPTIONS = []
-TIE_MODULES = ["FparserModel.Reader", "FparserModel.Block"]
+TIE_MODULES = ["FparserModel.Reader", "FparserModel.Block", "FparserModel.Cpp", "FparserModel.Generated.CppTables"]
 
 DIRECTIVES = ["#if defined(FOO) && BAR > 1", "#ifdef FOO", "#ifndef _OPENMP", "#elif BAR == 2", "#else", "#endif",
               "#include \"defs.h\"", "#include <stdio.h>", "#define FOO 1", "#define MAX(a,b) ((a)>(b)?(a):(b))", "#define EMPTY",
@@ -225,4 +225,5 @@ def cases(tier, seed):
 
 
 def run(tier, rep, st):
+    util.sub_cosim(rep, tier, "cosim_cpp", "Fp.Cpp", 150, 2000)
     engine.run_cases(__name__, cases(tier, rep.seed), rep)
